@@ -3,6 +3,7 @@ package sim
 // C19: decoding untrusted bytes never panics or hangs (stored-byte faults on real registers).
 
 import (
+	"bytes"
 	"encoding/binary"
 	"encoding/hex"
 	"encoding/json"
@@ -256,12 +257,125 @@ func mutateRegister(r *Rng, raw []byte, other []byte, stats *Stats) []byte {
 	return b
 }
 
+// structEdit applies one format-aware edit to a healthy register: the places where a decoder indexes by a
+// number it read from the bytes (counts, indexes into shared sections, lengths).
+func structEdit(r *Rng, id RegID, raw []byte, stats *Stats) []byte {
+	b := append([]byte{}, raw...)
+	p, err := ParseRegister(id, raw)
+	if err != nil {
+		return b
+	}
+	small := func() byte { return []byte{0, 1, 2, 3, 4, 23, 24, 0x7f, 0xff}[r.Intn(9)] }
+	choose := r.Intn(5)
+	if !p.IsMeta() && bytes.Contains(b, []byte{0xd8, 0xf6}) && r.Chance(0.5) {
+		choose = 0 // registers with type-info references are rare: edit those references often
+	}
+	switch {
+	case p.IsMeta():
+		// child count vs number of child records
+		rec := 14
+		if p.Kind == "map.meta" {
+			rec = 18
+		}
+		n := len(p.Children)
+		base := len(b) - rec*n
+		newCount := []int{0, 1, n - 1, n + 1, 0xffff, n}[r.Intn(6)]
+		keep := []int{0, n, n - 1, newCount}[r.Intn(4)]
+		if keep < 0 {
+			keep = 0
+		}
+		if keep > n {
+			keep = n
+		}
+		if newCount < 0 {
+			newCount = 0
+		}
+		out := append([]byte{}, b[:base]...)
+		binary.BigEndian.PutUint16(out[base-2:], uint16(newCount))
+		out = append(out, b[base:base+rec*keep]...)
+		stats.Inc("disk.struct.child-count")
+		return out
+	case choose == 0:
+		// type-info references (tag 246 + index) and extra-data indexes of inlined containers (tag 250-252, 0x83, 0x18 xx)
+		var pos []int
+		for i := 0; i+2 < len(b); i++ {
+			if b[i] == 0xd8 && b[i+1] == 0xf6 {
+				pos = append(pos, i+2)
+			}
+			if b[i] == 0xd8 && (b[i+1] == 0xfa || b[i+1] == 0xfb || b[i+1] == 0xfc) && i+4 < len(b) && b[i+2] == 0x83 && b[i+3] == 0x18 {
+				pos = append(pos, i+4)
+			}
+		}
+		if len(pos) > 0 {
+			q := pos[r.Intn(len(pos))]
+			switch r.Intn(3) {
+			case 0:
+				b[q]++
+			case 1:
+				b[q] += 2
+			default:
+				b[q] = small()
+			}
+			stats.Inc("disk.struct.shared-section-index")
+			return b
+		}
+		fallthrough
+	case choose == 1 && p.FlagIED:
+		// counts of the two lists of the shared (inlined extra data) section
+		off := 2 + p.ExtraLen
+		if off+2 < len(b) {
+			q := off + 1 + r.Intn(2)
+			b[q] = b[q]&0xe0 | (small() & 0x1f)
+			stats.Inc("disk.struct.shared-section-count")
+		}
+		return b
+	default:
+		// element count / digest length heads at the start of the content
+		off := len(b) - p.ContentLen
+		if p.Kind == "storable" || off < 2 || off+6 > len(b) {
+			if len(b) > 2 {
+				b[2+r.Intn(len(b)-2)] = small()
+			}
+			return b
+		}
+		if p.Kind == "arr.data" {
+			// 0x99 hi lo
+			binary.BigEndian.PutUint16(b[off+1:], uint16([]int{0, 1, len(p.Elems) + 1, len(p.Elems) - 1, 0xffff}[r.Intn(5)]&0xffff))
+			stats.Inc("disk.struct.element-count")
+			return b
+		}
+		// map: 0x83 level 0x59 len(2) digests... 0x99 n(2)
+		switch r.Intn(3) {
+		case 0:
+			b[off+1] = small() // level
+		case 1:
+			if b[off+2] == 0x59 {
+				l := int(binary.BigEndian.Uint16(b[off+3:]))
+				binary.BigEndian.PutUint16(b[off+3:], uint16([]int{0, l + 8, l - 8, l + 1, 0xffff}[r.Intn(5)]&0xffff))
+			} else {
+				b[off+2] = 0x59
+			}
+		default:
+			if b[off+2] == 0x59 {
+				l := int(binary.BigEndian.Uint16(b[off+3:]))
+				q := off + 5 + l
+				if q+3 <= len(b) {
+					n := int(binary.BigEndian.Uint16(b[q+1:]))
+					binary.BigEndian.PutUint16(b[q+1:], uint16([]int{0, n + 1, n - 1, 0xffff}[r.Intn(4)]&0xffff))
+				}
+			}
+		}
+		stats.Inc("disk.struct.map-elements-head")
+		return b
+	}
+}
+
 func init() {
 	ps := &PropSpec{
 		ID: "C19", Level: "exploration",
 		Verdict: []string{"decode."},
-		Rule: "disk corruption as a fault kind: the registers of a freshly generated healthy ledger (every slab kind: array/map data and index slabs, external collision groups, large-value slabs, slabs with inlined arrays/maps/compact maps and shared type infos; version 1 from the library plus the same slabs re-assembled in the version-0 layout) receive seeded stored-byte faults - bit flips, byte sets, truncation (torn write), extension, splice of another register's tail (misdirected write), edits of CBOR length/count heads and tag numbers, head-flag flips, byte insertion/deletion - and plain random strings of length 0..64; each is read back through DecodeSlab, PersistentSlabStorage.Retrieve, BatchPreload (1 and 4 workers, parallel path) and the raw head queries; oracle: no panic, returns (per-run watchdog in the orchestrator), heap allocated during the call <= 1 MiB + 256 x input length (harness-chosen reading of 'out of proportion'), accessors of accepted slabs panic-free. Non-trivial = a run that probed >= 50 mutated registers of >= 3 slab kinds with both accepted and rejected outcomes; distinct by corpus hash",
-		ExpectedReach: []string{"decode.accepted", "decode.rejected", "disk.flip", "disk.tear", "disk.splice", "disk.head-edit", "disk.random", "corpus.v0", "corpus.kind.arr.meta", "corpus.kind.map.coll", "corpus.kind.storable", "corpus.kind.map.meta"},
+		Rule: "disk corruption as a fault kind: the registers of a freshly generated healthy ledger (every slab kind: array/map data and index slabs, external collision groups, large-value slabs, slabs with inlined arrays/maps/compact maps and shared type infos; version 1 from the library plus the same slabs re-assembled in the version-0 layout) receive seeded stored-byte faults - bit flips, byte sets, truncation (torn write), extension, splice of another register's tail (misdirected write), edits of CBOR length/count heads and tag numbers, format-aware edits located with the independent parser (child count vs child records of index slabs, element counts, digest lengths, indexes into the shared type-info / extra-data section), head-flag flips, byte insertion/deletion - and plain random strings of length 0..64; each is read back through DecodeSlab, PersistentSlabStorage.Retrieve, BatchPreload (1 and 4 workers, parallel path) and the raw head queries; oracle: no panic, returns (per-run watchdog in the orchestrator), heap allocated during the call <= 1 MiB + 256 x input length (harness-chosen reading of 'out of proportion'), accessors of accepted slabs panic-free. Non-trivial = a run that probed >= 50 mutated registers of >= 3 slab kinds with both accepted and rejected outcomes; distinct by corpus hash",
+		ExpectedReach: []string{"decode.accepted", "decode.rejected", "disk.flip", "disk.tear", "disk.splice", "disk.head-edit", "disk.random", "disk.struct.child-count", "disk.struct.shared-section-index", "disk.struct.element-count", "disk.struct.map-elements-head", "corpus.v0", "corpus.kind.arr.meta", "corpus.kind.map.coll", "corpus.kind.storable", "corpus.kind.map.meta"},
 		Assumptions: []string{"an accepted slab is not required to be meaningful", "heap proportionality bound chosen by the harness: 1 MiB + 256 x len(input), measured with runtime.MemStats.TotalAlloc around each call"},
 	}
 	type aux struct {
@@ -356,6 +470,11 @@ func init() {
 					input[1] = []byte{0x00, 0x01, 0x08, 0x09, 0x0b, 0x1f, 0x80, 0x81, 0x88, 0x89, 0x3f}[mr.Intn(11)]
 				}
 				agg.Inc("disk.random")
+			} else if mr.Chance(0.3) {
+				input = structEdit(mr, it.id, it.raw, agg)
+				if mr.Chance(0.2) {
+					input = mutateRegister(mr, input, it.raw, agg)
+				}
 			} else {
 				input = mutateRegister(mr, it.raw, corpus[mr.Intn(len(corpus))].raw, agg)
 				if mr.Chance(0.15) {
